@@ -24,11 +24,25 @@ COMPONENTS = {"real": ["setigen.voltage.polyphase_filterbank (PolyphaseFilterban
 ASSUMPTIONS = ["scipy.signal.firwin is the documented window design (trusted)",
                "float comparison at 1e-10 of the largest attainable output magnitude"]
 PROBES = ["chunk_single_window", "reset_midstream", "nocache_between_feeds", "interleaved_objects",
-          "complex_input", "nonpow2_branches", "dtype_switch_after_reset"]
+          "complex_input", "nonpow2_branches", "dtype_switch_after_reset", "noncontiguous_input"]
 
 WINDOWS = ["hamming", "hann", "boxcar", "blackman"]
 KINDS = ["gauss", "ints", "impulse", "ramp", "complex"]
 ALL_KINDS = KINDS + ["int8"]
+
+
+def as_view(x, layout):
+    """The same values handed over as a non-contiguous view (one polarisation of an interleaved buffer, or the
+    real part of a complex array): 'arbitrary real or complex input' includes arrays that are not C-contiguous."""
+    if layout == "stride2":
+        buf = np.empty(2 * len(x), dtype=x.dtype)
+        buf[0::2] = x
+        buf[1::2] = 7
+        return buf[0::2]
+    if layout == "part" and not np.iscomplexobj(x):
+        z = x.astype(float) + 1j * np.arange(len(x))
+        return z.real
+    return x
 
 
 def make_input(kind, seed, n):
@@ -67,10 +81,10 @@ def generate(rng, tier):
         r = rng.random()
         if r < 0.62:
             k = rng.choice([1, 1, 2, 2, 3, 4, 5, 7, 9])
-            ops.append({"op": "feed", "p": p, "k": k})
+            ops.append({"op": "feed", "p": p, "k": k, "layout": rng.choice(["c", "c", "c", "stride2", "part"])})
         elif r < 0.74:
             ops.append({"op": "nocache", "p": p, "k": rng.choice([1, 2, 3, 4]), "seed": rng.randrange(1 << 30),
-                        "kind": rng.choice(KINDS[:4])})
+                        "kind": rng.choice(KINDS[:4]), "layout": rng.choice(["c", "c", "stride2", "part"])})
         elif r < 0.79:
             ops.append({"op": "reset", "p": p})
         elif r < 0.82:
@@ -174,7 +188,10 @@ def execute(sc, ctx):
                 import warnings
                 with warnings.catch_warnings():
                     warnings.simplefilter("ignore")
-                    got = np.asarray(o.channelize(chunk.copy(), cache=True))
+                    arg = as_view(chunk.copy(), op.get("layout", "c"))
+                    if not arg.flags["C_CONTIGUOUS"]:
+                        ctx.hit("noncontiguous_input")
+                    got = np.asarray(o.channelize(arg, cache=True))
             ctx.event("feed", p, got)
             S["pos"] += n
             m1 = (S["pos"] - S["epoch"]) // B - T
@@ -208,7 +225,7 @@ def execute(sc, ctx):
         elif op["op"] == "nocache":
             y = make_input(op["kind"], op["seed"], op["k"] * T * B)
             cache_before = None if o.cache is None else np.array(o.cache, copy=True)
-            got = np.asarray(o.channelize(y.copy(), cache=False))
+            got = np.asarray(o.channelize(as_view(y.copy(), op.get("layout", "c")), cache=False))
             ctx.event("nocache", p, got)
             want = mv.ref_pfb(y, T, B, h)
             S["last_was_nocache"] = True
